@@ -89,9 +89,14 @@ func (g *StoreGen) content() string {
 }
 
 func (g *StoreGen) extraTags(e *mocrelay.Event) {
+	if g.R.IntN(12) == 0 {
+		// NIP-40 style expiration (past or future): stores know nothing about it
+		e.Tags = append(e.Tags, mocrelay.Tag{"expiration", strconv.FormatInt(Pick(g.R, []int64{1, 1000, 1600000000, 4102444800}), 10)})
+	}
 	n := g.R.IntN(3)
 	for i := 0; i < n; i++ {
-		name := Pick(g.R, []string{"t", "p", "e", "t", "client"})
+		// multi-letter names whose first letter is a filter key must not be mistaken for it
+		name := Pick(g.R, []string{"t", "p", "e", "t", "client", "title", "emoji", "pow"})
 		switch g.R.IntN(5) {
 		case 0:
 			e.Tags = append(e.Tags, mocrelay.Tag{name})
